@@ -1071,10 +1071,11 @@ impl<'a> GeneratorState<'a> {
                     }
                 }
             }
-            // The returned value is in A: the pending ++/-- take effect before leaving
-            if !self.deferred_plusplus.is_empty() {
+            // The returned value is in A: the pending ++/-- take effect before leaving, and a Y
+            // saved for an index is restored
+            if !self.deferred_plusplus.is_empty() || self.saved_y {
                 self.acc_in_use = f.return_type.is_some();
-                self.purge_deferred_plusplus()?;
+                self.purge_deferred_plusplus_and_savey()?;
             }
             if f.inline {
                 self.asm(JMP, &ExprType::Label(".endof".into()), 0, false)?;
